@@ -325,6 +325,9 @@ impl Check for MatchCheck {
         let mut out = Outcome::default();
         seam::apply(&run.knobs());
         let mut s: Sess<LS, ()> = Sess::new(EGraph::new(()), run.get("naming") as u32);
+        if run.get("companion") != 0 {
+            s.enable_companion();
+        }
         let mut any_change = false;
         for (k, op) in run.ops.iter().enumerate() {
             s.cur_op = k;
@@ -824,6 +827,9 @@ impl Check for FireCheck {
         let mut out = Outcome::default();
         seam::apply(&run.knobs());
         let mut s: Sess<LS, ()> = Sess::new(EGraph::new(()), run.get("naming") as u32);
+        if run.get("companion") != 0 {
+            s.enable_companion();
+        }
         let Some(rule) = run.ops.iter().find(|o| o.name == "rule") else { return out };
         let (Ok(l), Ok(r)) = (parse_pat(&rule.s[0]), parse_pat(rule.s.get(1).map(|x| x.as_str()).unwrap_or("k:0"))) else { return out };
         let mut vars = Vec::new();
